@@ -142,6 +142,11 @@ func (fr *FileReader) readNextBlock() (*Block, error) {
 	// Read compressed data
 	compressedData := make([]byte, blockHeader.CompressedSize)
 	if _, err := io.ReadFull(fr.file, compressedData); err != nil {
+		// A block whose payload is cut short is the torn tail of an interrupted
+		// append: treat it like a short header, as the end of the data.
+		if errors.Is(err, io.ErrUnexpectedEOF) {
+			return nil, io.EOF
+		}
 		return nil, err
 	}
 	// Parse block
